@@ -251,6 +251,8 @@ pub fn solve_sys(a: &[f64], b: &[f64]) -> Vec<f64> {
         let b = row_to_col_major(b, n);
 
         if is_positive_definite(a) {
+            #[cfg(feature = "verif-hooks")]
+            crate::verif_hooks::tick(crate::verif_hooks::Site::SolveSysChol);
             let l = cholesky(a);
             for i in 0..nsys {
                 let sol = cholesky_solve(&l, &b[(i * n)..((i + 1) * n)]);
@@ -258,6 +260,8 @@ pub fn solve_sys(a: &[f64], b: &[f64]) -> Vec<f64> {
                 solutions.extend_from_slice(&sol);
             }
         } else {
+            #[cfg(feature = "verif-hooks")]
+            crate::verif_hooks::tick(crate::verif_hooks::Site::SolveSysLu);
             let (lu, piv) = lu(a);
             for i in 0..nsys {
                 let sol = lu_solve(&lu, &piv, &b[(i * n)..((i + 1) * n)]);
@@ -300,9 +304,13 @@ pub fn solve(a: &[f64], b: &[f64]) -> Vec<f64> {
     #[cfg(not(feature = "lapack"))]
     {
         if is_positive_definite(a) {
+            #[cfg(feature = "verif-hooks")]
+            crate::verif_hooks::tick(crate::verif_hooks::Site::SolveChol);
             let l = cholesky(a);
             cholesky_solve(&l, b)
         } else {
+            #[cfg(feature = "verif-hooks")]
+            crate::verif_hooks::tick(crate::verif_hooks::Site::SolveLu);
             let (lu, piv) = lu(a);
             lu_solve(&lu, &piv, b)
         }
